@@ -22,3 +22,4 @@ WRAP BF* w_bf_roundtrip(const BF* f) { try { auto b = f->serialize(); return new
 WRAP BF* w_bf_init_mem(uint8_t* mem, uint64_t len, uint64_t num_bits, uint16_t num_hashes, uint64_t seed) { try { return new BF(BF::builder::initialize_by_size(mem, len, num_bits, num_hashes, seed)); } catch (...) { return nullptr; } }
 WRAP BF* w_bf_wrap(const uint8_t* mem, uint64_t len) { try { return new BF(BF::wrap(mem, len)); } catch (...) { return nullptr; } }
 WRAP BF* w_bf_writable_wrap(uint8_t* mem, uint64_t len) { try { return new BF(BF::writable_wrap(mem, len)); } catch (...) { return nullptr; } }
+WRAP int64_t w_bf_serialize(const BF* f, uint8_t* out, uint64_t cap) { try { auto b = f->serialize(); if (b.size() > cap) return -2; for (size_t i = 0; i < b.size(); i++) out[i] = b[i]; return (int64_t)b.size(); } catch (...) { return -1; } }
